@@ -21,7 +21,7 @@
 (assert (forall ((s Bytes) (p Bytes)) (! (=> (hasPrefix s p) (and (<= (blen p) (blen s)) (= (bsub s 0 (blen p)) p))) :pattern ((hasPrefix s p)))))
 (assert (forall ((s Bytes) (p Bytes)) (! (=> (and (<= (blen p) (blen s)) (= (bsub s 0 (blen p)) p)) (hasPrefix s p)) :pattern ((hasPrefix s p)))))
 (assert (forall ((s Bytes) (p Bytes)) (! (=> (and (hasPrefix s p) (= (blen s) (blen p))) (= s p)) :pattern ((hasPrefix s p)))))
-(assert (forall ((a Bytes) (b Bytes)) (! (hasPrefix (bcat a b) a) :pattern ((bcat a b)))))
+(assert (forall ((a Bytes) (b Bytes)) (! (hasPrefix (bcat a b) a) :pattern ((hasPrefix (bcat a b) a)))))
 ; L-prefix-lt: a proper extension is greater than its prefix
 (assert (forall ((s Bytes) (p Bytes)) (! (=> (and (hasPrefix s p) (not (= s p))) (< (rank p) (rank s))) :pattern ((hasPrefix s p)))))
 ; L-convex: q <= a <= b and b starts with q  ==>  a starts with q
@@ -43,12 +43,59 @@
 (assert (forall ((e Int)) (! (=> (isNotExist e) (not (= e 0))) :pattern ((isNotExist e)))))
 ; ---- concatenation is cancellative
 (assert (forall ((a Bytes) (b Bytes) (c Bytes)) (! (=> (= (bcat a b) (bcat a c)) (= b c)) :pattern ((bcat a b) (bcat a c)))))
-(assert (forall ((a Bytes) (b Bytes) (c Bytes) (d Bytes)) (! (=> (and (= (bcat a b) (bcat c d)) (= (blen a) (blen c))) (and (= a c) (= b d))) :pattern ((bcat a b) (bcat c d)))))
 (assert (forall ((a Bytes) (b Bytes) (c Bytes)) (! (= (bcat (bcat a b) c) (bcat a (bcat b c))) :pattern ((bcat (bcat a b) c)))))
 ; ---- split at the first occurrence (strings.SplitN(s, sep, 2)); sep non-empty
 (assert (forall ((s Bytes) (p Bytes)) (! (=> (and (contains s p) (> (blen p) 0)) (and (= s (bcat (splitHead s p) (bcat p (splitTail s p)))) (not (contains (splitHead s p) p)))) :pattern ((contains s p)))))
 (assert (forall ((s Bytes) (p Bytes)) (! (=> (not (contains s p)) (= (splitHead s p) s)) :pattern ((splitHead s p)))))
-(assert (forall ((a Bytes) (p Bytes) (b Bytes)) (! (contains (bcat a (bcat p b)) p) :pattern ((bcat a (bcat p b))))))
-(assert (forall ((a Bytes) (p Bytes) (b Bytes)) (! (=> (and (= (blen p) 1) (not (contains a p))) (and (= (splitHead (bcat a (bcat p b)) p) a) (= (splitTail (bcat a (bcat p b)) p) b))) :pattern ((bcat a (bcat p b))))))
+(assert (forall ((a Bytes) (p Bytes) (b Bytes)) (! (contains (bcat a (bcat p b)) p) :pattern ((contains (bcat a (bcat p b)) p)))))
+(assert (forall ((a Bytes) (p Bytes) (b Bytes)) (! (=> (and (= (blen p) 1) (not (contains a p))) (= (splitHead (bcat a (bcat p b)) p) a)) :pattern ((splitHead (bcat a (bcat p b)) p)))))
+(assert (forall ((a Bytes) (p Bytes) (b Bytes)) (! (=> (and (= (blen p) 1) (not (contains a p))) (= (splitTail (bcat a (bcat p b)) p) b)) :pattern ((splitTail (bcat a (bcat p b)) p)))))
 (assert (forall ((s Bytes) (p Bytes)) (! (=> (contains s p) (<= (blen p) (blen s))) :pattern ((contains s p)))))
 (assert (forall ((a Bytes) (b Bytes) (p Bytes)) (! (=> (contains a p) (contains (bcat a b) p)) :pattern ((contains (bcat a b) p)))))
+; ---- paths: joining with a valid component is injective and never yields the parent
+(assert (forall ((a Bytes) (b Bytes) (c Bytes) (d Bytes)) (! (=> (and (= (pjoin a b) (pjoin c d)) (validName b) (validName d)) (and (= a c) (= b d))) :pattern ((pjoin a b) (pjoin c d)))))
+(assert (forall ((a Bytes) (b Bytes)) (! (=> (validName b) (not (= (pjoin a b) a))) :pattern ((pjoin a b)))))
+(assert (forall ((s Bytes)) (! (=> (validName s) (and (> (blen s) 0) (not (contains s (byte1 47))))) :pattern ((validName s)))))
+(assert (forall ((h Bytes) (i Int) (j Int)) (! (=> (and (<= 0 i) (< i j) (<= j (blen (hex h)))) (validName (bsub (hex h) i j))) :pattern ((bsub (hex h) i j)))))
+; ---- zlib and sha1 (assumed contracts of compress/zlib and crypto/sha1)
+(assert (forall ((x Bytes)) (! (and (= (zlibDec (zlibEnc x)) x) (validZlib (zlibEnc x))) :pattern ((zlibEnc x)))))
+(assert (forall ((x Bytes)) (! (= (blen (sha1 x)) 20) :pattern ((sha1 x)))))
+; A-SHA1 (collision-freedom, assumed): equal ids come from equal preimages
+(assert (forall ((x Bytes) (y Bytes)) (! (=> (= (sha1 x) (sha1 y)) (= x y)) :pattern ((sha1 x) (sha1 y)))))
+; ---- first occurrence of a byte at or after a position (blen if there is none)
+(assert (forall ((s Bytes) (c Int) (k Int)) (! (=> (and (<= 0 k) (<= k (blen s))) (and (<= k (indexOfByte s c k)) (<= (indexOfByte s c k) (blen s)))) :pattern ((indexOfByte s c k)))))
+(assert (forall ((s Bytes) (c Int) (k Int) (i Int)) (! (=> (and (<= 0 k) (<= k i) (< i (indexOfByte s c k))) (not (= (bat s i) c))) :pattern ((indexOfByte s c k) (bat s i)))))
+(assert (forall ((s Bytes) (c Int) (k Int)) (! (=> (and (<= 0 k) (<= k (blen s)) (< (indexOfByte s c k) (blen s))) (= (bat s (indexOfByte s c k)) c)) :pattern ((indexOfByte s c k)))))
+; ---- more sequence lemmas
+; L-snoc: extending a slice by the next byte
+(assert (forall ((s Bytes) (i Int) (j Int)) (! (=> (and (<= 0 i) (<= i j) (< j (blen s))) (= (bcat (bsub s i j) (byte1 (bat s j))) (bsub s i (+ j 1)))) :pattern ((bcat (bsub s i j) (byte1 (bat s j)))))))
+; L-sub-sub
+(assert (forall ((s Bytes) (i Int) (j Int) (k Int) (l Int)) (! (=> (and (<= 0 i) (<= i j) (<= j (blen s)) (<= 0 k) (<= k l) (<= l (- j i))) (= (bsub (bsub s i j) k l) (bsub s (+ i k) (+ i l)))) :pattern ((bsub (bsub s i j) k l)))))
+; L-sub-empty
+(assert (forall ((s Bytes) (i Int)) (! (=> (and (<= 0 i) (<= i (blen s))) (= (bsub s i i) bempty)) :pattern ((bsub s i i)))))
+; L-sub-cat: a slice splits at any interior point
+(assert (forall ((s Bytes) (i Int) (j Int) (k Int)) (! (=> (and (<= 0 i) (<= i j) (<= j k) (<= k (blen s))) (= (bcat (bsub s i j) (bsub s j k)) (bsub s i k))) :pattern ((bcat (bsub s i j) (bsub s j k))))))
+; single-byte containment is about positions
+(assert (forall ((s Bytes) (c Int)) (! (=> (contains s (byte1 c)) (exists ((i Int)) (and (<= 0 i) (< i (blen s)) (= (bat s i) c)))) :pattern ((contains s (byte1 c))))))
+(assert (forall ((s Bytes) (c Int) (i Int)) (! (=> (and (<= 0 i) (< i (blen s)) (= (bat s i) c)) (contains s (byte1 c))) :pattern ((contains s (byte1 c)) (bat s i)))))
+; decimal numerals: digits and an optional minus sign only
+(assert (forall ((n Int) (w Int) (i Int)) (! (=> (and (<= 0 i) (< i (blen (fmtd n w)))) (or (= (bat (fmtd n w) i) 45) (and (<= 48 (bat (fmtd n w) i)) (<= (bat (fmtd n w) i) 57)))) :pattern ((bat (fmtd n w) i)))))
+(assert (forall ((n Int)) (! (startsWithInt (fmtd n 0)) :pattern ((fmtd n 0)))))
+; ---- noByte(s, c): byte c does not occur in s
+(assert (forall ((s Bytes) (c Int) (i Int)) (! (=> (and (noByte s c) (<= 0 i) (< i (blen s))) (not (= (bat s i) c))) :pattern ((noByte s c) (bat s i)))))
+(assert (forall ((s Bytes) (c Int)) (! (=> (not (noByte s c)) (exists ((i Int)) (and (<= 0 i) (< i (blen s)) (= (bat s i) c)))) :pattern ((noByte s c)))))
+(assert (forall ((a Bytes) (b Bytes) (c Int)) (! (= (noByte (bcat a b) c) (and (noByte a c) (noByte b c))) :pattern ((noByte (bcat a b) c)))))
+(assert (forall ((c Int)) (! (noByte bempty c) :pattern ((noByte bempty c)))))
+(assert (forall ((n Int) (w Int) (c Int)) (! (=> (and (not (= c 45)) (or (< c 48) (> c 57))) (noByte (fmtd n w) c)) :pattern ((noByte (fmtd n w) c)))))
+(assert (forall ((s Bytes) (c Int)) (! (= (contains s (byte1 c)) (not (noByte s c))) :pattern ((contains s (byte1 c))))))
+(assert (forall ((h Bytes) (c Int)) (! (=> (or (< c 48) (and (> c 57) (< c 97)) (> c 102)) (noByte (hex h) c)) :pattern ((noByte (hex h) c)))))
+; ---- peeling a (right-nested) concatenation
+; first occurrence of c from the start
+(assert (forall ((a Bytes) (b Bytes) (c Int)) (! (= (indexOfByte (bcat a b) c 0) (ite (noByte a c) (+ (blen a) (indexOfByte b c 0)) (indexOfByte a c 0))) :pattern ((indexOfByte (bcat a b) c 0)))))
+(assert (forall ((s Bytes) (c Int) (k Int) (i Int)) (! (=> (and (<= 0 k) (<= k i) (< i (blen s)) (= (bat s i) c)) (<= (indexOfByte s c k) i)) :pattern ((indexOfByte s c k) (bat s i)))))
+(assert (forall ((s Bytes) (c Int)) (! (=> (and (> (blen s) 0) (= (bat s 0) c)) (= (indexOfByte s c 0) 0)) :pattern ((indexOfByte s c 0)))))
+; prefix of a concatenation that covers the first part
+(assert (forall ((a Bytes) (b Bytes) (j Int)) (! (=> (and (<= (blen a) j) (<= j (+ (blen a) (blen b)))) (= (bsub (bcat a b) 0 j) (bcat a (bsub b 0 (- j (blen a)))))) :pattern ((bsub (bcat a b) 0 j)))))
+; slice of a concatenation that starts after the first part
+(assert (forall ((a Bytes) (b Bytes) (i Int) (j Int)) (! (=> (and (<= (blen a) i) (<= i j) (<= j (+ (blen a) (blen b)))) (= (bsub (bcat a b) i j) (bsub b (- i (blen a)) (- j (blen a))))) :pattern ((bsub (bcat a b) i j)))))
+(assert (forall ((s Bytes)) (! (= (bsub s 0 0) bempty) :pattern ((bsub s 0 0)))))
